@@ -156,9 +156,19 @@ where
 {
     // Largest per-feature variance of all the samples summarised by `class_info`, pooled over
     // the classes (law of total variance): sum_c w_c (sigma_c + theta_c^2) - (sum_c w_c theta_c)^2
-    fn max_pooled_variance(class_info: &HashMap<L, GaussianClassInfo<F>>) -> Option<F> {
+    fn max_pooled_variance(class_info: &HashMap<L, GaussianClassInfo<F>>) -> Option<F>
+    where
+        L: Ord,
+    {
         let total = class_info.values().map(|x| x.class_count).sum::<usize>();
-        let mut infos = class_info.values().filter(|x| x.class_count > 0);
+        // the classes are pooled in ascending order: floating point sums depend on the order of
+        // their terms and the iteration order of the hash map is random
+        let mut infos = class_info
+            .iter()
+            .filter(|(_, x)| x.class_count > 0)
+            .collect::<Vec<_>>();
+        infos.sort_unstable_by(|a, b| a.0.cmp(b.0));
+        let mut infos = infos.into_iter().map(|(_, x)| x);
         let first = infos.next()?;
         let weight = |info: &GaussianClassInfo<F>| F::cast(info.class_count) / F::cast(total);
         let mut mean = &first.theta * weight(first);
